@@ -386,6 +386,9 @@ package deviceshare
 //@   ensures #same: old(n.nodeDeviceInfos[nodeName]) != nil ==> result == old(n.nodeDeviceInfos[nodeName])
 //@   ensures #init: needInit ==> result != nil && result == n.nodeDeviceInfos[nodeName]
 //@   ensures #new: needInit && old(n.nodeDeviceInfos[nodeName]) == nil ==> fresh(result) && ledgersOK(result) && emptyLedgers(result) && fresh(result.deviceTotal) && fresh(result.deviceUsed) && fresh(result.deviceFree)
+//@   ensures #newset: needInit && old(n.nodeDeviceInfos[nodeName]) == nil ==> result.allocateSet != nil && fresh(result.allocateSet) && (forall t schedulingv1alpha1.DeviceType :: result.allocateSet[t] == nil)
+//@   ensures #lookup: !needInit ==> result == old(n.nodeDeviceInfos[nodeName]) && n.nodeDeviceInfos[nodeName] == old(n.nodeDeviceInfos[nodeName])
+//@   ensures #others: forall name string :: name != nodeName ==> n.nodeDeviceInfos[name] == old(n.nodeDeviceInfos[name])
 //@   modifies contents(n.nodeDeviceInfos)
 
 // GPU topology index built during a refresh: frame only -- it writes nothing but maps it has just made.
@@ -407,3 +410,115 @@ package deviceshare
 //@   ensures #used: nodeName != "" && device != nil && old(n.nodeDeviceInfos[nodeName]) != nil ==> (forall t schedulingv1alpha1.DeviceType, m int, r corev1.ResourceName :: usd(n.nodeDeviceInfos[nodeName], t, m, r) == old(usd(n.nodeDeviceInfos[nodeName], t, m, r)))
 //@   assert after call buildDeviceResources: #used_after_build: n.nodeDeviceInfos[nodeName] != nil ==> (forall t schedulingv1alpha1.DeviceType, m int, r corev1.ResourceName :: usd(n.nodeDeviceInfos[nodeName], t, m, r) == old(usd(n.nodeDeviceInfos[nodeName], t, m, r)))
 //@   assert before call resetDeviceTotal: #used_before_reset: old(n.nodeDeviceInfos[nodeName]) != nil ==> (forall t schedulingv1alpha1.DeviceType, m int, r corev1.ResourceName :: usd($recv, t, m, r) == old(usd($recv, t, m, r)))
+
+// ---- GPU allocator: unhealthy (all-zero / empty total) GPUs are never offered ----
+
+// removeZeroDevice keeps exactly the minors whose resource list is not all-zero (an unhealthy GPU has an empty list),
+// with the same lists, in a new map; the input is untouched.
+//@ func removeZeroDevice [C07]
+//@   ensures #fresh: result != nil && fresh(result)
+//@   ensures #dom: forall m int :: has(result, m) <==> has(originalResources, m) && !rlZero(originalResources[m])
+//@   ensures #same: forall m int :: has(result, m) ==> result[m] == originalResources[m]
+//@   modifies nothing
+//@   loop 1 invariant refinedResources != nil && fresh(refinedResources)
+//@   loop 1 invariant forall m int :: has(refinedResources, m) <==> $seen[m] && has(originalResources, m) && !rlZero(originalResources[m])
+//@   loop 1 invariant forall m int :: has(refinedResources, m) ==> refinedResources[m] == originalResources[m]
+
+// offered(ctx, total): the total ledger stored in the allocate context is `total` with the all-zero devices filtered out.
+//@ spec func offered(ctx *AllocateContext, total deviceResources) bool = ctx != nil && (forall m int :: has(ctx.deviceTotal, m) <==> has(total, m) && !rlZero(total[m])) && (forall m int :: has(ctx.deviceTotal, m) ==> ctx.deviceTotal[m] == total[m])
+
+// Only call-site pins (the function is large): the AllocateContext handed to the template / partition / topology
+// allocation carries the FILTERED total, i.e. the map returned by removeZeroDevice, so no GPU with an empty / all-zero
+// total is offered (quotav1.LessThanOrEqual(request, emptyList) would accept it).
+//@ func (*GPUAllocator).Allocate [C07]
+//@   requires requestCtx != nil && nodeDevice != nil
+//@   modifies inferred
+//@   assert before call allocateByTemplate: #pin_template: $arg4.deviceTotal == lastresult("removeZeroDevice") && offered($arg4, nodeDevice.deviceTotal[schedulingv1alpha1.GPU])
+// The partition / topology allocation gets that same context object (allocateByTemplate / allocateByPartition are not under
+// contract -- dynamic scorer calls -- so nothing is claimed about what THEY do to it in between).
+//@   assert before call allocateByPartition: #pin_partition: $arg3 == allocateContext && $arg3 != nil
+//@   assert before call generalAllocate: #pin_topology: $arg4 == allocateContext && $arg4 != nil
+
+
+// ==== Property C19 (rebuild half): the device allocation persisted on a pod is replayed into the node's device ledger ====
+// The codec half of C19 is ASSUMED: apiext.GetDeviceAllocations is a `pure` getter of the annotation map ("what is
+// persisted"), see /verif/lib/C19.spec. The ledger side (updateCacheUsed: a pod already in the allocate set is not added
+// again, removal subtracts what was added, free = max0(total - used)) is verified under C07 above (#noop / #moved / #balanced).
+
+// The cached node device of a node (if any) is well-formed (newNodeDevice is the only constructor; the C07 methods keep
+// these invariants).
+//@ spec func devOK(n *nodeDeviceCache, name string) bool = n.nodeDeviceInfos[name] != nil ==> ledgersOK(n.nodeDeviceInfos[name]) && innerDistinct(n.nodeDeviceInfos[name]) && allocSetOK(n.nodeDeviceInfos[name])
+// What is persisted was written by this scheduler's allocator: every per-type list names a minor at most once (C07
+// defaultAllocateDevices#distinct); dal is the definitional naming of da[t] that updateCacheUsed's contract uses.
+//@ spec func persistedOK() bool = forall da apiext.DeviceAllocations, t schedulingv1alpha1.DeviceType :: {has(da, t)} has(da, t) ==> arr(dal(da, t)) == arr(da[t]) && off(dal(da, t)) == off(da[t]) && len(dal(da, t)) == len(da[t]) && allocsOK(dal(da, t))
+
+// deletePod: an assigned pod with a decodable non-empty allocation whose node is cached releases exactly that allocation
+// from that node's ledger (add=false, the pod itself), once; otherwise nothing is touched.
+//@ func (*nodeDeviceCache).deletePod [C19]
+//@   requires n != nil && n.nodeDeviceInfos != nil && devOK(n, pod.Spec.NodeName) && pod != nil && persistedOK() && nnDef(pod.ObjectMeta.Namespace, pod.ObjectMeta.Name)
+//@   assert before call GetDeviceAllocations: #persisted: $arg0 == pod.ObjectMeta.Annotations
+//@   assert before call updateCacheUsed: #own: $recv == n.nodeDeviceInfos[pod.Spec.NodeName] && $recv != nil && $arg0 == lastresult("GetDeviceAllocations", 0) && $arg1 == pod && !$arg2 && pod.Spec.NodeName != ""
+//@   ensures #unassigned: pod.Spec.NodeName == "" ==> calls("updateCacheUsed") == 0 && calls("GetDeviceAllocations") == 0
+//@   ensures #iff: pod.Spec.NodeName != "" ==> calls("updateCacheUsed") == (lastresult("GetDeviceAllocations", 1) == nil && len(lastresult("GetDeviceAllocations", 0)) > 0 && old(n.nodeDeviceInfos[pod.Spec.NodeName]) != nil ? 1 : 0)
+//@   ensures #inv: n.nodeDeviceInfos[pod.Spec.NodeName] == old(n.nodeDeviceInfos[pod.Spec.NodeName]) && devOK(n, pod.Spec.NodeName)
+//@   modifies inferred
+
+// updatePod (add event: oldPod == nil; update event: oldPod = previous object).
+//   #which   every updateCacheUsed call is on the ledger of the NEW object's node and is either add=true with the allocation
+//            decoded from the new object and the new object itself, or add=false with the allocation decoded from the old
+//            object and the old object (only for an old object that had a node and a non-empty allocation);
+//   #when    such calls happen only for an assigned, non-terminated new object; the removal (if any) precedes the add;
+//   #decoded the two decoder calls read the new object's annotations first, then (update event) the old object's;
+//   #addevent (restart replay): the add event of an assigned, non-terminated pod issues exactly one updateCacheUsed(add=true)
+//            iff its annotation decodes to a non-empty allocation - and none otherwise;
+//   #recorded after an add event that replays a non-empty allocation the pod is in the allocate set of every device type it
+//            holds (whether it was added now or had been recorded before: duplicate add events do not add again, C07 #noop);
+//   #duplicate a duplicate add event (pod already in the allocate set of a device type of an existing node device) leaves the
+//            used and free amounts of that type untouched - no double counting;
+//   #unassigned / #terminated: deletePod (of the old object resp. of the pod itself) instead, never both.
+//@ func (*nodeDeviceCache).updatePod [C19]
+//@   requires n != nil && n.nodeDeviceInfos != nil && pod != nil && persistedOK()
+//@   requires devOK(n, pod.Spec.NodeName) && nnDef(pod.ObjectMeta.Namespace, pod.ObjectMeta.Name)
+//@   requires oldPod != nil ==> devOK(n, oldPod.Spec.NodeName) && nnDef(oldPod.ObjectMeta.Namespace, oldPod.ObjectMeta.Name)
+//@   assert before call updateCacheUsed: #which: $recv == n.nodeDeviceInfos[pod.Spec.NodeName] && $recv != nil && ($arg2 ? ($arg0 == allocations && $arg1 == pod && len(allocations) > 0) : ($arg0 == oldAllocations && $arg1 == oldPod && oldPod != nil && oldPod.Spec.NodeName != "" && len(oldAllocations) > 0))
+//@   assert before call updateCacheUsed: #when: pod.Spec.NodeName != "" && !util.IsPodTerminated(pod) && calls("deletePod") == 0 && (oldPod == nil ==> $arg2 && allocations == lastresult("GetDeviceAllocations", 0)) && calls("updateCacheUsed") == ($arg2 && oldPod != nil && oldPod.Spec.NodeName != "" && len(oldAllocations) > 0 ? 2 : 1)
+//@   assert before call GetDeviceAllocations: #decoded: calls("GetDeviceAllocations") == 1 ? $arg0 == pod.ObjectMeta.Annotations : (oldPod != nil && $arg0 == oldPod.ObjectMeta.Annotations)
+//@   assert before call deletePod: #whom: pod.Spec.NodeName == "" ? (oldPod != nil && $arg0 == oldPod && oldPod.Spec.NodeName != "") : ($arg0 == pod && util.IsPodTerminated(pod))
+//@   ensures #unassigned: pod.Spec.NodeName == "" ==> calls("updateCacheUsed") == 0 && calls("deletePod") == (oldPod != nil && oldPod.Spec.NodeName != "" ? 1 : 0)
+//@   ensures #terminated: pod.Spec.NodeName != "" && util.IsPodTerminated(pod) ==> calls("updateCacheUsed") == 0 && calls("deletePod") == 1
+//@   ensures #assigned: pod.Spec.NodeName != "" && !util.IsPodTerminated(pod) ==> calls("deletePod") == 0 && calls("updateCacheUsed") <= 2
+//@   ensures #addevent: oldPod == nil && pod.Spec.NodeName != "" && !util.IsPodTerminated(pod) ==> calls("updateCacheUsed") == (lastresult("GetDeviceAllocations", 1) == nil && len(lastresult("GetDeviceAllocations", 0)) > 0 ? 1 : 0)
+//@   ensures #recorded: oldPod == nil && pod.Spec.NodeName != "" && !util.IsPodTerminated(pod) && lastresult("GetDeviceAllocations", 1) == nil && len(lastresult("GetDeviceAllocations", 0)) > 0 ==> n.nodeDeviceInfos[pod.Spec.NodeName] != nil && (forall t schedulingv1alpha1.DeviceType :: {has(lastresult("GetDeviceAllocations", 0), t)} has(lastresult("GetDeviceAllocations", 0), t) ==> podIn(n.nodeDeviceInfos[pod.Spec.NodeName].allocateSet[t], pod.ObjectMeta.Namespace, pod.ObjectMeta.Name))
+//@   ensures #duplicate: oldPod == nil && pod.Spec.NodeName != "" && !util.IsPodTerminated(pod) && old(n.nodeDeviceInfos[pod.Spec.NodeName]) != nil ==> (forall t schedulingv1alpha1.DeviceType :: old(podIn(n.nodeDeviceInfos[pod.Spec.NodeName].allocateSet[t], pod.ObjectMeta.Namespace, pod.ObjectMeta.Name)) ==> usedFreeSame(n.nodeDeviceInfos[pod.Spec.NodeName], t))
+//@   ensures #inv_ledgers: pod.Spec.NodeName != "" && !util.IsPodTerminated(pod) && n.nodeDeviceInfos[pod.Spec.NodeName] != nil ==> ledgersOK(n.nodeDeviceInfos[pod.Spec.NodeName])
+//@   ensures #inv_inner: pod.Spec.NodeName != "" && !util.IsPodTerminated(pod) && n.nodeDeviceInfos[pod.Spec.NodeName] != nil ==> innerDistinct(n.nodeDeviceInfos[pod.Spec.NodeName])
+//@   ensures #inv_set: pod.Spec.NodeName != "" && !util.IsPodTerminated(pod) && n.nodeDeviceInfos[pod.Spec.NodeName] != nil ==> allocSetOK(n.nodeDeviceInfos[pod.Spec.NodeName])
+//@   modifies inferred
+
+// Informer wrappers: every pod event is forwarded unchanged (add: no old object; update: old and new object; delete: the
+// object itself or the pod inside a DeletedFinalStateUnknown tombstone); anything else is dropped. Informers never
+// deliver typed-nil pods. The well-formedness preconditions are those of updatePod / deletePod for the forwarded objects.
+//@ spec func podArgOK(n *nodeDeviceCache, p *corev1.Pod) bool = p != nil && devOK(n, p.Spec.NodeName) && nnDef(p.ObjectMeta.Namespace, p.ObjectMeta.Name)
+//@ func (*nodeDeviceCache).onPodAdd [C19]
+//@   requires n != nil && n.nodeDeviceInfos != nil && persistedOK()
+//@   requires typeis(obj, *corev1.Pod) ==> podArgOK(n, payload(obj, *corev1.Pod))
+//@   assert before call updatePod: #fwd: $arg0 == nil && typeis(obj, *corev1.Pod) && $arg1 == payload(obj, *corev1.Pod)
+//@   ensures #iff: calls("updatePod") == (typeis(obj, *corev1.Pod) ? 1 : 0) && calls("deletePod") == 0
+//@   modifies inferred
+
+//@ func (*nodeDeviceCache).onPodUpdate [C19]
+//@   requires n != nil && n.nodeDeviceInfos != nil && persistedOK()
+//@   requires typeis(newObj, *corev1.Pod) ==> podArgOK(n, payload(newObj, *corev1.Pod))
+//@   requires typeis(oldObj, *corev1.Pod) && payload(oldObj, *corev1.Pod) != nil ==> podArgOK(n, payload(oldObj, *corev1.Pod))
+//@   assert before call updatePod: #fwd: typeis(oldObj, *corev1.Pod) && typeis(newObj, *corev1.Pod) && $arg0 == payload(oldObj, *corev1.Pod) && $arg1 == payload(newObj, *corev1.Pod)
+//@   ensures #iff: calls("updatePod") == (typeis(oldObj, *corev1.Pod) && typeis(newObj, *corev1.Pod) ? 1 : 0) && calls("deletePod") == 0
+//@   modifies inferred
+
+//@ spec func isTombPod(obj any) bool = typeis(obj, cache.DeletedFinalStateUnknown) && typeis(payload(obj, cache.DeletedFinalStateUnknown).Obj, *corev1.Pod)
+//@ spec func deletedPod(obj any) *corev1.Pod = typeis(obj, *corev1.Pod) ? payload(obj, *corev1.Pod) : (isTombPod(obj) ? payload(payload(obj, cache.DeletedFinalStateUnknown).Obj, *corev1.Pod) : nil)
+//@ func (*nodeDeviceCache).onPodDelete [C19]
+//@   requires n != nil && n.nodeDeviceInfos != nil && persistedOK()
+//@   requires typeis(obj, *corev1.Pod) || isTombPod(obj) ==> podArgOK(n, deletedPod(obj))
+//@   assert before call deletePod: #fwd: $arg0 == deletedPod(obj) && (typeis(obj, *corev1.Pod) || isTombPod(obj))
+//@   ensures #iff: calls("deletePod") == (typeis(obj, *corev1.Pod) || isTombPod(obj) ? 1 : 0) && calls("updatePod") == 0
+//@   modifies inferred
